@@ -237,7 +237,7 @@ def run(run):
     jobs = []
     if thorough:
         exh = [("small", 3, 3), ("medium", 3, 2), ("medium", 2, 4)]
-        nrand = 6000000
+        nrand = 16000000
     else:
         exh = [("medium", 3, 2), ("small", 2, 3)]
         nrand = 240000
